@@ -329,9 +329,9 @@ def _drop_empty(f):
 
 def run(chk):
     prog = chk.load()
-    rule_peel(chk, prog)
-    rule_stems(chk, prog)
-    rule_buckets(chk, prog)
-    rule_components(chk, prog)
+    chk.guard(rule_peel, chk, prog)
+    chk.guard(rule_stems, chk, prog)
+    chk.guard(rule_buckets, chk, prog)
+    chk.guard(rule_components, chk, prog)
     from .c14 import rule_tree_flip
-    rule_tree_flip(chk, prog)          # bounds of a flipped / translated tree: what keeps sibling trees off each other
+    chk.guard(rule_tree_flip, chk, prog)          # bounds of a flipped / translated tree: what keeps sibling trees off each other
